@@ -73,9 +73,7 @@ pub fn run_case(ctx: &mut Ctx, fam: &str, _k: u64, r: &mut Rng) {
             let spec = NetSpec { layers: vec![l.clone()], in_dims: in_dims.clone(), ce: false, lr: 0.0 };
             let params = gen_params(r, &spec, ints);
             let input = gen_input(r, &spec, ints);
-            let act = match &l {
-                LSpec::Dense { act, .. } | LSpec::Conv { act, .. } => *act,
-            };
+            let act = l.act();
             let is_conv = matches!(l, LSpec::Conv { .. });
             let desc = format!("layer|{:?}|{:?}", l, in_dims);
             ctx.case(&desc, bname == "batch-N" || bname == "batch-NxM" || bname == "batch-NxMxK");
